@@ -57,7 +57,8 @@ pub fn run(ctx: &mut Ctx) {
         let log_gain = (idx / 4) % 2 == 1;
         let rate = RATES[(idx / 8) % RATES.len()];
         let w = random_lsp(rng, m);
-        let k = rng.log_uniform(0.2, 5.0);
+        // (a gain of exactly one is a corner of the gain normalisation)
+        let k = if idx % 10 == 3 { 1.0 } else { rng.log_uniform(0.2, 5.0) };
         one_case(ctx, idx, w, stage, alpha, log_gain, rate, k);
     });
 }
